@@ -27,12 +27,18 @@ import (
 // "" here = increment absent; then positive, negative, zero, non-integer, MaxInt64
 var incAll = []string{"", "2", "-1", "0", "zz", "9223372036854775807"}
 
+// presentEmpty stands for an increment field that is present but empty
+// ("key NUL"), as opposed to "" = no increment field at all
+const presentEmpty = "<present-but-empty>"
+
 func counterAlphabet(incs []string) []string {
 	var out []string
 	for _, k := range []string{"a", "b", ""} {
 		for _, inc := range incs {
 			if inc == "" {
 				out = append(out, k)
+			} else if inc == presentEmpty {
+				out = append(out, k+"\x00") // the increment field is there and empty
 			} else {
 				out = append(out, k+"\x00"+inc)
 			}
@@ -50,6 +56,8 @@ func pairAlphabet(firsts, seconds, incs []string, delim string) []string {
 			for _, inc := range incs {
 				if inc == "" {
 					out = append(out, a+delim+b)
+				} else if inc == presentEmpty {
+					out = append(out, a+delim+b+delim)
 				} else {
 					out = append(out, a+delim+b+delim+inc)
 				}
@@ -102,6 +110,10 @@ func families(quick bool) []family {
 	// spellings of decimal integers: zero-padded, signed, at and beyond the
 	// int64 limits (every [+-]?digits string is a base-10 integer; S1/S4)
 	spell := []string{"", "010", "08", "09", "-007", "+009", "00", "-0", "+0", "0000000000000000000001", "9223372036854775808", "-9223372036854775808", "-9223372036854775809", "0100"}
+	// ... and texts that are NOT integers although a hand-written digit loop
+	// might let them through: an empty field, a sign alone, two signs, a sign
+	// behind, blanks around, other notations, digits of another script
+	spell = append(spell, presentEmpty, "-", "+", "--1", "+-1", "-+1", "1-", "1+", "- 1", " 1", "1 ", "0x1", "1e1", "1.0", "1_0", "\uff11", "\u0661")
 	one2 := []string{"a"}
 	fs = append(fs,
 		family{name: "counter", config: "increment-spellings", alpha: counterAlphabet(spell), maxLen: 2, ordered: true, runAt: one(runCounterAt)},
@@ -665,7 +677,7 @@ func main() {
 			}
 			return "real MatchCounter / SubKeyCounter / TableAggregator (delimiters NUL and '::') / AccumulatingGroup (3 hand-written programs: sumi without groups; 1 group with sumi, count, maxi, a column reference, a forward column reference, last value and concatenation; 2 groups; plus the generated programs below) / MatchNumerical (keep, keep+reverse, no-keep): EVERY sample sequence of length 0.." +
 				pick("4 (counter), 3 (sub-key, table), 4 (accumulator), 5 (numerical)", "5 (counter), 4 (sub-key, table), 5 (accumulator), 6 (numerical)") +
-				" over keys {a,b,''} x sub-keys/rows {absent,x,y,''} x increments {absent,2,-1,0,zz,MaxInt64}, plus histories of up to 2 samples over 13 spellings of decimal integers (zero-padded, signed, 22 digits with leading zeros, MaxInt64+1, MinInt64, MinInt64-1)" +
+				" over keys {a,b,''} x sub-keys/rows {absent,x,y,''} x increments {absent,2,-1,0,zz,MaxInt64}, plus histories of up to 2 samples over 13 spellings of decimal integers (zero-padded, signed, 22 digits with leading zeros, MaxInt64+1, MinInt64, MinInt64-1) and 17 texts that are not integers although a digit loop might accept them (a present but empty field, a sign alone, two signs, a trailing sign, blanks, 0x1, 1e1, 1.0, 1_0, fullwidth and Arabic-Indic digits)" +
 				", numerical symbols " + pick("{0,1,2,-3,2.5,x}", "{0,1,2,-3,2.5,x,1e9,''}") +
 				" and, with keep and no-keep, length 0.." + pick("4", "6") + " over the large-magnitude symbols {1e9+4,1e9+7,1e9+13,1e9+16,1e15,1e15+1,-1e12-3,1} (unit-size spread at huge magnitude, identical huge values by repetition; reference moments computed exactly with rationals; tolerance 1e-9 relative + 1e-12 of the largest |sample|)" +
 				"; each sequence is applied to a fresh object and every public accessor is compared with an independent fold after every prefix; sequences are enumerated as all distinct permutations of every multiset and the accessor states of all permutations are compared (order independence). Trim: every table on grids up to 2x3" + pick("", " and 3x2") + " with cells in {absent," + pick("2,-1", "2,-1,0") +
